@@ -86,6 +86,14 @@ fn main() {
                 let mut w = BufWriter::new(File::create(&args[7]).expect("create output"));
                 trace::noise(&args[3], args[4].parse().expect("seed"), args[5].parse().expect("runs"), args[6].parse().expect("n"), &mut w);
                 w.flush().unwrap();
+            } else if args.len() >= 9 && args[2] == "full" {
+                // pkv trace full <component> <seed> <runs> <calls-per-run> <scenarios.json> <out.ndjson>
+                let txt = std::fs::read_to_string(&args[7]).expect("read scenarios");
+                let v: serde_json::Value = serde_json::from_str(&txt).expect("parse scenarios");
+                let mut w = BufWriter::new(File::create(&args[8]).expect("create output"));
+                trace::scripted(&args[3], &v, &mut w);
+                trace::noise(&args[3], args[4].parse().expect("seed"), args[5].parse().expect("runs"), args[6].parse().expect("n"), &mut w);
+                w.flush().unwrap();
             } else if args.len() >= 6 && args[2] == "script" {
                 let txt = std::fs::read_to_string(&args[4]).expect("read scenarios");
                 let v: serde_json::Value = serde_json::from_str(&txt).expect("parse scenarios");
